@@ -63,6 +63,14 @@ func runC24(x *simkit.Exec) {
 	maxConc := x.Range("max_concurrency", 1, 3)
 	nClients := x.Range("clients", 2, 6)
 	cancellations := x.Bool("cancellations", 1, 2)
+	// The limits file may be re-read while requests are queued or in progress (0..2 times, at
+	// scheduler-chosen moments). Every reload installs a fresh gate, and requests admitted by an older gate
+	// finish on it, so the bound that can be stated then is max_concurrency per gate generation; what must
+	// hold unconditionally is that nothing panics and every request is answered.
+	reloads := 0
+	if x.Bool("limits-reloaded", 1, 3) {
+		reloads = x.Range("reloads", 1, 2)
+	}
 	var clients []*c24Client
 	for i := 0; i < nClients; i++ {
 		cl := &c24Client{id: i, otlp: x.Bool("otlp", 1, 2)}
@@ -82,7 +90,7 @@ func runC24(x *simkit.Exec) {
 		}
 		kinds = append(kinds, k)
 	}
-	x.Sample = map[string]any{"max_concurrency": maxConc, "clients": kinds}
+	x.Sample = map[string]any{"max_concurrency": maxConc, "clients": kinds, "limits_reloads": reloads}
 
 	x.Bubble("gate", func(s *simkit.Sim) {
 		c, err := newCluster(s, x, clusterCfg{workers: 4, nodes: 1, rf: 1, algo: receive.AlgorithmHashmod, noPeers: true,
@@ -110,11 +118,27 @@ func runC24(x *simkit.Exec) {
 			}
 			return "after-cancellation-while-queued:" + strings.Join(k, "+")
 		}
+		reloadsDone := 0
+		if reloads > 0 {
+			s.Go("limits-reloader", func() {
+				for i := 0; i < reloads; i++ {
+					if err := s.Park(context.Background(), s.OpID("limits-reloader", "reload")); err != nil {
+						return
+					}
+					reloadsDone++
+					if err := n.limiter.VerifReloadLimits(); err != nil {
+						x.Troublef("c24: reloading the limits: %v", err)
+						return
+					}
+					s.Probe("c24.limits_reloaded")
+				}
+			})
+		}
 		s.OnStep = func() {
 			n.store.mu.Lock()
 			in := n.store.inflight
 			n.store.mu.Unlock()
-			if in > maxConc {
+			if in > maxConc*(1+reloadsDone) {
 				s.Violate("in-flight-writes-within-max-concurrency", sig(),
 					"%d writes are in progress in the TSDB at once, write.global.max_concurrency is %d (clients: %v)", in, maxConc, kinds)
 			}
